@@ -1,5 +1,5 @@
 //! C07 — -print0 / -print byte-exact paths, and the pipe into xargs -0.
-use super::c02::{build_scene, pick_roots};
+use super::c02::build_scene;
 use super::frun_common::run_case;
 use crate::case::{Case, Sink};
 use crate::fexpr::argv_of;
@@ -34,13 +34,15 @@ pub fn run_prop(ctx: &Ctx, sink: &mut Sink) {
             if rng.chance(1, 5) {
                 toks.push("depth".into());
             }
-            let roots = pick_roots(&mut rng, &sc, true);
-            let flag = *rng.pick(&["P", "P", "L"]);
+            // starting points in every spelling (trailing slashes, leading ./, trailing /.), under every follow mode:
+            // the path printed for the starting point itself must be the operand as given
+            let roots: Vec<(Vec<u8>, String)> = (0..rng.range(1, 2)).map(|_| sc.roots[rng.below(8)].clone()).collect();
+            let flag = *rng.pick(&["P", "P", "L", "H"]);
             if ci % 3 == 2 {
                 // find … -print0 | xargs -0 recorder
                 toks.push("print0".into());
                 let mut args: Vec<String> = vec![];
-                if flag == "L" { args.push("-L".into()); }
+                if flag != "P" { args.push(format!("-{flag}")); }
                 for (sp, _) in &roots { args.push(String::from_utf8(sp.clone()).unwrap()); }
                 args.extend(argv_of(&toks, &mut rng));
                 let (fst, xst, inv) = run_pipe0(ctx, &args, &sc.dir);
